@@ -2,6 +2,7 @@ package engine
 
 import (
 	"fmt"
+	"regexp"
 	"strconv"
 	"strings"
 	"testing"
@@ -54,6 +55,10 @@ func (r *RuleSpec) httpRule() *annotations.HttpRule {
 		out.Pattern = &annotations.HttpRule_Delete{Delete: r.Template}
 	case r.Verb == "patch":
 		out.Pattern = &annotations.HttpRule_Patch{Patch: r.Template}
+	case r.Verb == "custom-nil":
+		out.Pattern = &annotations.HttpRule_Custom{} // a custom pattern without its message
+	case r.Verb == "none":
+		// no pattern at all
 	default:
 		out.Pattern = &annotations.HttpRule_Custom{Custom: &annotations.CustomHttpPattern{Kind: strings.TrimPrefix(r.Verb, "custom:"), Path: r.Template}}
 	}
@@ -216,7 +221,7 @@ func genRule(r *core.Rand, idx int, m c16Method) RuleSpec {
 		}
 	}
 	if r.Chance(1, 4) {
-		verb := r.PickS("cancel", "v", "batchGet")
+		verb := r.PickS("cancel", "v", "batchGet", "v1.beta", "batch.get", "x-y", "a_b", "n.m-o")
 		tmpl += ":" + verb
 		path += ":" + verb
 	}
@@ -242,7 +247,21 @@ func genRule(r *core.Rand, idx int, m c16Method) RuleSpec {
 // grammar, and says why.
 func mutate(r *core.Rand, rule RuleSpec, m c16Method) RuleSpec {
 	rule.Path, rule.Want = "", nil
-	switch r.Intn(9) {
+	switch r.Intn(13) {
+	case 9:
+		// a variable inside a variable's pattern
+		rule.Template += r.PickS("/{a={b}}", "/{text={user_id}}", "/{x=lit/{y}}", "/{a={b=*}}")
+		rule.Invalid = "nested-variable"
+	case 10:
+		// ** anywhere but last (the grammar allows only a verb after it)
+		rule.Template += r.PickS("/**/tail", "/**/*", "/{a=**}/tail", "/{a=lit/**}/x")
+		rule.Invalid = "starstar-not-last"
+	case 11:
+		rule.Verb = "custom-nil"
+		rule.Invalid = "custom-pattern-missing"
+	case 12:
+		rule.Verb = "none"
+		rule.Invalid = "pattern-missing"
 	case 0:
 		rule.Template += "/{message_id"
 		rule.Invalid = "unbalanced-brace-open"
@@ -312,7 +331,7 @@ func genC16(r *core.Rand, run int) *MuxScenario {
 	for i := 0; i < nrules; i++ {
 		m := c16Methods[r.Intn(len(c16Methods))]
 		rule := genRule(r, i+1, m)
-		switch r.Intn(12) {
+		switch r.Intn(14) {
 		case 0, 1, 2:
 			rule = mutate(r, rule, m)
 		case 3: // a valid additional binding
@@ -349,8 +368,39 @@ func genC16(r *core.Rand, run int) *MuxScenario {
 				t += ":" + r.PickS("v", "cancel")
 			}
 			rule = RuleSpec{Selector: rule.Selector, Verb: "get", Template: t, Long: true}
+		case 8: // the same binding as an earlier rule of another method, spelled differently: {f} vs {g=*} vs *
+			if len(sc.Rules) > 0 {
+				prev := sc.Rules[r.Intn(len(sc.Rules))]
+				if prev.Invalid == "" && !prev.Long && !prev.Conflict && prev.Selector != rule.Selector && reNamedVar.MatchString(prev.Template) && !rePatternVar.MatchString(prev.Template) && (prev.Body == "*" || prev.Body == "") && prev.RespBody == "" && len(prev.Additional) == 0 {
+					var strs []bindField
+					for _, f := range bindable(methodDesc(m.Service, m.Name).Input(), "", 0) {
+						if f.Kind == protoreflect.StringKind {
+							strs = append(strs, f)
+						}
+					}
+					n := 0
+					t := reNamedVar.ReplaceAllStringFunc(prev.Template, func(string) string {
+						n++
+						if len(strs) >= n && r.Chance(1, 2) {
+							return "{" + strs[n-1].Path + "=*}"
+						}
+						return "*"
+					})
+					rule = RuleSpec{Selector: rule.Selector, Verb: prev.Verb, Template: t, Body: prev.Body, Conflict: true}
+				}
+			}
+		case 9: // bind another method's implicit /Service/Method path for every verb
+			other := c16Methods[r.Intn(len(c16Methods))]
+			if other.Service+"."+other.Name != rule.Selector {
+				rule = RuleSpec{Selector: rule.Selector, Verb: "custom:*", Template: "/" + other.Service + "/" + other.Name, Body: "*", Conflict: true}
+			}
 		case 6: // re-declare the implicit /Service/Method path for the same method
 			rule = RuleSpec{Selector: rule.Selector, Verb: "post", Body: "*", Template: "/" + m.Service + "/" + m.Name, Path: "/" + m.Service + "/" + m.Name, Want: map[string]string{}}
+			if r.Chance(1, 2) { // ... with an additional binding of its own, which must route like any other
+				add := genRule(r, 200+i, m)
+				add.Selector = ""
+				rule.Additional = append(rule.Additional, add)
+			}
 		}
 		sc.Rules = append(sc.Rules, rule)
 	}
@@ -385,6 +435,20 @@ type binding struct {
 	verb, tmpl string
 }
 
+var (
+	reNamedVar   = regexp.MustCompile(`\{[^=}]+\}`)
+	rePatternVar = regexp.MustCompile(`\{[^=}]+=([^}]*)\}`)
+)
+
+// normTemplate: two templates that differ only in how a variable is spelled
+// ({f}, {g=*}, a bare *) or named are the same binding.
+func normTemplate(t string) string {
+	t = rePatternVar.ReplaceAllString(t, "$1")
+	return reNamedVar.ReplaceAllString(t, "*")
+}
+
+func bindingOf(b *RuleSpec) binding { return binding{b.httpMethod(), normTemplate(b.Template)} }
+
 type ruleModel struct {
 	sc       *MuxScenario
 	accepted map[string]bool    // services whose registration was accepted
@@ -409,9 +473,30 @@ func (m *ruleModel) hasLong(service string) bool {
 	return false
 }
 
+// implicitBindings: every method is also bound for every verb at /Service/Method.
+func implicitBindings(service string) map[binding]string {
+	out := map[binding]string{}
+	d, err := protoregistry.GlobalFiles.FindDescriptorByName(protoreflect.FullName(service))
+	if err != nil {
+		return out
+	}
+	mds := d.(protoreflect.ServiceDescriptor).Methods()
+	for i := 0; i < mds.Len(); i++ {
+		name := string(mds.Get(i).Name())
+		out[binding{"*", "/" + service + "/" + name}] = service + "." + name
+	}
+	return out
+}
+
 func (m *ruleModel) wouldAccept(service string) (bool, string) {
 	bound := map[binding]string{}
 	for k, v := range m.bound {
+		bound[k] = v
+	}
+	for k, v := range implicitBindings(service) {
+		if owner, ok := bound[k]; ok && owner != v {
+			return false, "conflict on the implicit path " + k.tmpl + " with " + owner
+		}
 		bound[k] = v
 	}
 	for _, rule := range m.sc.Rules {
@@ -423,7 +508,7 @@ func (m *ruleModel) wouldAccept(service string) (bool, string) {
 		}
 		all := append([]RuleSpec{rule}, rule.Additional...)
 		for _, b := range all {
-			key := binding{b.httpMethod(), b.Template}
+			key := bindingOf(&b)
 			if owner, ok := bound[key]; ok && owner != rule.Selector {
 				return false, "conflict on " + b.Verb + " " + b.Template + " with " + owner
 			}
@@ -440,6 +525,9 @@ func (m *ruleModel) register(service string) bool {
 	}
 	first := !m.accepted[service]
 	m.accepted[service] = true
+	for k, v := range implicitBindings(service) {
+		m.bound[k] = v
+	}
 	for _, rule := range m.sc.Rules {
 		if serviceOf(rule.Selector) != service {
 			continue
@@ -447,7 +535,7 @@ func (m *ruleModel) register(service string) bool {
 		all := append([]RuleSpec{rule}, rule.Additional...)
 		for _, b := range all {
 			b.Selector = rule.Selector
-			m.bound[binding{b.httpMethod(), b.Template}] = rule.Selector
+			m.bound[bindingOf(&b)] = rule.Selector
 			if first && b.Path != "" {
 				m.live = append(m.live, b)
 			}
